@@ -110,6 +110,32 @@ func genC08(r *Rng, tier string) *World {
 		w.Tasks = append(w.Tasks, ops)
 	}
 	w.Params["npre"] = Pick(r, []int{1, 2, 3, 5, 8})
+	if r.P(0.03) && w.Schemas[0].Kind != "pre" {
+		// a crowd: dozens of callers inside one schema at the same moment (a busy server's handlers), each stopped half-way
+		// through its call before the next one starts; every one of them must still get what it gets alone
+		w.Family = "crowd"
+		root := w.Schemas[0]
+		hasPtr := false
+		root.Walk(func(n *Node) { hasPtr = hasPtr || n.Kind == "ptr" })
+		if !hasPtr {
+			switch root.Kind {
+			case "struct":
+				if r.P(0.5) {
+					root = &Node{Kind: "ptr", Req: r.P(0.3), Elem: root}
+					break
+				}
+				fallthrough
+			case "string", "int", "bool", "slice":
+				root = &Node{Kind: "struct", Fields: []*Field{{Key: "p", N: &Node{Kind: "ptr", Req: r.P(0.3), Elem: root}}}}
+			}
+		}
+		w.Schemas, cfgs = []*Node{root}, cfgs[:1]
+		w.Tasks = nil
+		for t, nt := 0, 36+r.Intn(11); t < nt; t++ {
+			w.Tasks = append(w.Tasks, []Op{genExecOp(r, w, cfgs, 0.3)})
+		}
+		w.Params["crowd"] = 1
+	}
 	return w
 }
 
@@ -143,8 +169,16 @@ func runC08(x *X) *Violation {
 			total = 2
 		}
 		if w.Preempts == nil && !x.Replay {
-			for i := 0; i < w.P("npre"); i++ {
-				w.Preempts = append(w.Preempts, simrt.Preempt{Step: int64(1 + x.genRng.Intn(total)), To: x.genRng.Intn(4)})
+			if w.P("crowd") == 1 {
+				// task k runs about half of its call, then hands over to task k+1 (To counts the runnable tasks other than the current one)
+				half := total/len(w.Tasks)/2 + 1
+				for k := 0; k+1 < len(w.Tasks); k++ {
+					w.Preempts = append(w.Preempts, simrt.Preempt{Step: int64((k+1)*half - x.genRng.Intn(half/2+1)), To: k})
+				}
+			} else {
+				for i := 0; i < w.P("npre"); i++ {
+					w.Preempts = append(w.Preempts, simrt.Preempt{Step: int64(1 + x.genRng.Intn(total)), To: x.genRng.Intn(4)})
+				}
 			}
 			sortPreempts(w.Preempts)
 		}
@@ -166,6 +200,12 @@ func runC08(x *X) *Violation {
 	}
 	if inOp > 0 && cross > 0 {
 		x.NonTrivial = true
+	}
+	if w.P("crowd") == 1 {
+		x.Probes["crowd_worlds"]++
+		if inOp >= 33 {
+			x.Probes["crowd_33_calls_in_flight"]++
+		}
 	}
 	for t, p := range con.panics {
 		if p != nil {
@@ -273,6 +313,12 @@ func genC19(r *Rng, tier string) *World {
 		}
 		if n.Kind == "slice" && n.Def != nil && len(n.PTs) == 0 && r.P(0.6) {
 			n.PTs = append(n.PTs, PTSpec{Mutate: Pick(r, []string{"elem0", "append"})})
+		}
+	})
+	// destinations of a user-defined list type, with Defaults written as plain []string values
+	root.Walk(func(n *Node) {
+		if n.Kind == "slice" && n.Elem.Kind == "string" && n.Elem.W == "" && r.P(0.25) {
+			n.W = "named"
 		}
 	})
 	w.Schemas = []*Node{root}
